@@ -3,7 +3,7 @@
    (compared here with the model's run of the same history) and an id-free view of what the
    server answers, once from the incrementally updated database and once from a database
    built from scratch on the current texts. *)
-From IweV Require Export Check_Norm ArenaWF.
+From IweV Require Export Check_Norm ArenaWF Index Paths.
 Local Open Scope string_scope.
 Local Open Scope list_scope.
 
@@ -109,6 +109,8 @@ Definition state_corr (ext : string) (g : res graph) (ar : res arena) (keys : li
       flag 6 (forallb (fun o => list_eqb onat_eqb (map_obs g (hn_key o) (length (hn_map o))) (hn_map o)) notes)
   end.
 
+Definition strs_eqb_l := list_eqb String.eqb.
+
 Definition hist_corr (c : histcase) : list N :=
   let g0 := hist_graph0 c in
   dedup_stages (
@@ -116,6 +118,69 @@ Definition hist_corr (c : histcase) : list N :=
     flat_map (fun gs => state_corr (hc_ext c) (fst gs) (st_arena (snd gs)) (st_keys (snd gs))
                           (st_titles (snd gs)) (st_notes (snd gs)) (st_tables (snd gs)))
              (combine (model_states g0 (hc_steps c)) (hc_steps c))).
+
+
+(* ---------- the reference index and the outline paths along the history (Index.v, Paths.v) ---- *)
+
+(* the whole-graph state (graph + merge-only reference index + global line map) after the import
+   and after every step; the repaired index walk (continues after tables) and the repaired path
+   enumeration (filtered references) are what /repo has *)
+Definition hist_state0 (c : histcase) : res gstate := do ns <- hist_blocks c; import_state_v true ns.
+
+Definition step_state (g : res gstate) (s : step) : res gstate :=
+  do g <- g;
+  do bs <- ni_blocks (st_in s);
+  update_state_v true g (key_from_file_name (ni_name (st_in s))) (ni_meta (st_in s)) bs.
+
+Fixpoint model_gstates (g : res gstate) (steps : list step) : list (res gstate) :=
+  match steps with
+  | [] => []
+  | s :: r => let g' := step_state g s in g' :: model_gstates g' r
+  end.
+
+Fixpoint ins_str (x : string) (l : list string) : list string :=
+  match l with
+  | [] => [x]
+  | y :: r => if sleb x y then x :: l else y :: ins_str x r
+  end.
+Definition sort_strs (l : list string) : list string := fold_right ins_str [] l.
+
+(* "<owner key>:<first line>" of a node, as the harness prints it (-1 without a line range) *)
+Definition loc_str (gs : gstate) (id : nat) : string :=
+  match Index.node_key (gr_arena (gs_graph gs)) id with
+  | Ok k => k +++ ":" +++ match node_line_range gs id with Some r => dec (fst r) | None => "-1" end
+  | Panic _ => "PANIC"
+  end.
+
+Definition locs (gs : gstate) (ids : res (list nat)) : list string :=
+  match ids with Ok l => sort_strs (map (loc_str gs) l) | Panic _ => ["PANIC"] end.
+
+Definition back_corr (gs : gstate) (b : list (string * list string * list string)) : bool :=
+  forallb (fun e => let '(k, blk, inls) := e in
+             strs_eqb_l (locs gs (block_refs_to gs k)) blk && strs_eqb_l (locs gs (inline_refs_to gs k)) inls) b.
+
+Definition path_str (gs : gstate) (ids : list nat) : string :=
+  join " > " (map (fun id =>
+    match Index.node_key (gr_arena (gs_graph gs)) id, Paths.get_text (gr_arena (gs_graph gs)) id with
+    | Ok k, Ok t => k +++ "#" +++ trim t
+    | _, _ => "PANIC"
+    end) ids).
+
+Definition paths_corr (gs : gstate) (ps : list string) : bool :=
+  match graph_to_paths true gs with
+  | Ok l => strs_eqb_l (sort_strs (map (path_str gs) l)) ps
+  | Panic _ => match ps with [p] => starts_with "PANIC" p | _ => false end
+  end.
+
+Definition index_corr_step (g : res gstate) (inc : option idfree) : list N :=
+  match g, inc with
+  | Ok gs, Some i => flag 7 (back_corr gs (if_back i)) ++ flag 8 (paths_corr gs (if_paths i))
+  | _, _ => []
+  end.
+
+Definition hist_index_corr (c : histcase) : list N :=
+  dedup_stages (flat_map (fun gs => index_corr_step (fst gs) (st_inc (snd gs)))
+                         (combine (model_gstates (hist_state0 c) (hc_steps c)) (hc_steps c))).
 
 (* ---------- C20: the implementation's arena is a well-formed forest after every operation -- *)
 
@@ -181,8 +246,11 @@ Definition step_c04 (s : step) : list N :=
 
 Definition hist_c04 (c : histcase) : list N := dedup_stages (flat_map step_c04 (hc_steps c)).
 
+(* the index and path models are compared on histories whose arenas are forests; on the
+   F-ITEMLEAD class the implementation's arena holds orphans (C20) and its answers about them are
+   not modelled *)
 Definition run_C04 (c : histcase) : verdict :=
-  V (hist_corr c) (hist_c04 c) (hist_classes c) (hist_nontrivial c).
+  V (dedup_stages (hist_corr c ++ match hist_classes c with [] => hist_index_corr c | _ => [] end)) (hist_c04 c) (hist_classes c) (hist_nontrivial c).
 
 Definition run_HIST (c : histcase) : verdict :=
   V (hist_corr c) (hist_c04 c ++ map (fun x => (10 + x)%N) (hist_wf c)) (hist_classes c) (hist_nontrivial c).
